@@ -1,6 +1,8 @@
 """C06 - spine selection is column projection (projection model vs export, all subsets of ids and types)."""
 from __future__ import annotations
 
+import random
+
 import itertools
 
 from ..common import Ctx
@@ -64,7 +66,15 @@ def one(ctx: Ctx, cs, pname=None, **over):
             ctx.mon('alignment_failed (C03 decides)')
             return
         fulls[name] = (full, [[(t, c.spine) for t, c in zip(grow, arow)] for grow, arow in zip(g, ag)])
-    id_sets = list(subsets(range(n))) + [[n + 3], [0, n + 1], None]
+    if n <= 5:
+        id_sets = list(subsets(range(n)))
+    else:
+        # many spines: the empty set, every single spine, every complement of one, the full set and a random sample of the rest
+        srng = random.Random(cs ^ 0x5B5)
+        id_sets = [[]] + [[i] for i in range(n)] + [[j for j in range(n) if j != i] for i in range(n)] + [list(range(n))]
+        id_sets += [sorted(srng.sample(range(n), srng.randint(2, n - 2))) for _ in range(24)]
+        ctx.cls('many_spines (id subsets sampled)')
+    id_sets += [[n + 3], [0, n + 1], None]
     type_sets = list(subsets(types)) + [['**mens'], types + ['**mens'], None]
     k = 0
     nontriv_doc = n >= 2 and 'split_in_nonfirst_spine' in doc.tags
@@ -100,6 +110,36 @@ def one(ctx: Ctx, cs, pname=None, **over):
                               f'{ge[j] if j < len(ge) else "<end>"!r}', c2)
             elif nontriv_doc and 0 < len(keep) < n:
                 ctx.nontriv(cs, tuple(ids) if ids is not None else None, tuple(tys) if tys is not None else None)
+    # projection of a score cut at a measure (to_measure): the synthesised terminator line is part of the projection too
+    from ..model import measures as MM
+    from ..model import humdrum as H
+    M = len(MM.measure_starts(doc))
+    if M >= 1 and n >= 2:
+        prng = random.Random(cs ^ 0xC06)
+        for _ in range(6):
+            b = prng.randint(1, M)
+            ids = sorted(prng.sample(range(n), prng.randint(1, n - 1)))
+            cut, err = kpx.dumps(d, to_measure=b, spine_types=types)
+            if err is not None:
+                ctx.mon('cut_export_raised (C07 decides)')
+                continue
+            keep = {i for i in ids if doc.headers[i] in known}
+            exp = H.project(cut, keep)
+            if exp is None:
+                ctx.mon('cut_export_not_trackable (C08 decides)')
+                continue
+            ctx.ev()
+            ctx.mon('projected_cut_exports')
+            out, err = kpx.dumps(d, to_measure=b, spine_ids=ids)
+            c2 = dict(case, spine_ids=ids, to_measure=b)
+            if err is not None:
+                ctx.violation('projection-raises', f'to_measure={b} spine_ids={ids}: {type(err).__name__}: {err}', c2)
+            elif out != exp:
+                go, ge = out.split('\n'), exp.split('\n')
+                j = next((i for i in range(min(len(go), len(ge))) if go[i] != ge[i]), min(len(go), len(ge)))
+                ctx.violation('projection-mismatch', f'to_measure={b} spine_ids={ids}: line {j + 1}: exported '
+                              f'{go[j] if j < len(go) else "<end>"!r}, projection of the same cut of all spines gives '
+                              f'{ge[j] if j < len(ge) else "<end>"!r}', c2)
     # the same selections through ExportOptions objects that are REUSED for every document of the run (kp.export)
     import warnings
     for tys in type_sets:
